@@ -50,15 +50,29 @@ pub fn sentinels(id: u32) -> Vec<String> {
         format!("CQ{id}Z"),
         format!("RQ{id}Z"),
         format!("LQ{id}Z"),
-        format!("GC{id}Z"),
-        format!("GS{id}Z"),
-        format!("GD{id}Z"),
-        format!("GL{id}Z"),
-        format!("GK{id}Z"),
-        format!("GN{id}Z"),
-        format!("{}", lat(id)),
-        format!("{}", long(id)),
-        format!("~{}km", 300 + id),
+    ]
+    .into_iter()
+    .chain(geo_sentinels(id))
+    .collect()
+}
+
+/// GeoIP data is shared by the four addresses of a group (routers of one site): a hidden and a visible hop can then be at the
+/// same location, which is one entry of the map
+fn geo_group(id: u32) -> u32 {
+    id / 4 * 4
+}
+fn geo_sentinels(id: u32) -> Vec<String> {
+    let g = geo_group(id);
+    vec![
+        format!("GC{g}Z"),
+        format!("GS{g}Z"),
+        format!("GD{g}Z"),
+        format!("GL{g}Z"),
+        format!("GK{g}Z"),
+        format!("GN{g}Z"),
+        format!("{}", lat(g)),
+        format!("{}", long(g)),
+        format!("~{}km", 300 + g),
     ]
 }
 
@@ -96,18 +110,21 @@ fn seed_sentinel(app: &TuiApp, id: u32) {
         return;
     }
     let located = id % 3 != 2;
+    // (with the generated database loaded the same data comes out of the real reader)
+    if GEO_DB.load(Ordering::SeqCst) { return; }
+    let g = geo_group(id);
     app.geoip_lookup.verif_seed(
         a,
         GeoIpCity::verif_new(
-            if located { Some(lat(id)) } else { None },
-            if located { Some(long(id)) } else { None },
-            Some(300 + id as u16),
-            Some(format!("GC{id}Z")),
-            Some(format!("GS{id}Z")),
-            Some(format!("GD{id}Z")),
-            Some(format!("GL{id}Z")),
-            Some(format!("GK{id}Z")),
-            Some(format!("GN{id}Z")),
+            if located { Some(lat(g)) } else { None },
+            if located { Some(long(g)) } else { None },
+            Some(300 + g as u16),
+            Some(format!("GC{g}Z")),
+            Some(format!("GS{g}Z")),
+            Some(format!("GD{g}Z")),
+            Some(format!("GL{g}Z")),
+            Some(format!("GK{g}Z")),
+            Some(format!("GN{g}Z")),
         ),
     );
 }
@@ -120,6 +137,23 @@ fn id_of(a: &IpAddr) -> Option<u32> {
 }
 
 static COMBO: AtomicUsize = AtomicUsize::new(0);
+static GEO_DB: std::sync::atomic::AtomicBool = std::sync::atomic::AtomicBool::new(false);
+
+/// the sentinel GeoIP data of `seed_sentinel` as a database (first octet 100 + id)
+fn sentinel_db() -> Vec<u8> {
+    crate::tuikit::first_octet_mmdb(&|v| {
+        if !(100..200).contains(&v) { return None; }
+        let id = u32::from(v) - 100;
+        if id % 3 == 1 { return None; }
+        let located = id % 3 != 2;
+        let g = geo_group(id);
+        Some(crate::tuikit::GeoRec {
+            lat: if located { Some(lat(g)) } else { None }, long: if located { Some(long(g)) } else { None }, radius: Some(300 + g as u16),
+            city: Some(format!("GC{g}Z")), sub: Some(format!("GS{g}Z")), sub_code: Some(format!("GD{g}Z")), country: Some(format!("GL{g}Z")),
+            country_code: Some(format!("GK{g}Z")), continent: Some(format!("GN{g}Z")),
+        })
+    })
+}
 
 struct Saved {
     help: bool,
@@ -205,11 +239,25 @@ fn search(app: &TuiApp, txt: &str, what: &str, fails: &mut Vec<String>, stats: &
     }
     let target = id_of(&app.tracer_config().data.target_addr());
     let body: String = txt.lines().skip(4).collect::<Vec<_>>().join("\n");
-    for (id, ttls) in addr_ttls(app) {
+    let at = addr_ttls(app);
+    // GeoIP strings that some visible address legitimately shows
+    let visible_geo: BTreeSet<String> = at.iter().filter(|(_, ttls)| ttls.iter().any(|t| *t > n)).flat_map(|(id, _)| geo_sentinels(*id)).collect();
+    // the info panel of the map describes ONE hop (the selected one, else the target) and is the only text of that view that names a
+    // location: when that hop is hidden no location may be printed at all - also not one that a visible hop shares
+    if app.show_map && !app.show_help && !app.show_settings {
+        let panel_ttl = std::panic::catch_unwind(std::panic::AssertUnwindSafe(|| app.selected_hop_or_target().ttl())).unwrap_or(0);
+        if panel_ttl != 0 && panel_ttl <= n {
+            if let Some(tok) = at.keys().flat_map(|id| geo_sentinels(*id)).find(|tok| txt.contains(tok.as_str())) {
+                fails.push(format!("C18:leak:map_info_panel_of_hidden_hop_{panel_ttl}_names_a_location:{tok}:{what}"));
+            }
+        }
+    }
+    for (id, ttls) in at {
         // an address is hidden when every hop it answered at is within the privacy range
         if ttls.iter().all(|t| *t <= n) {
             stats.hidden_addr_checks += 1;
             for tok in sentinels(id) {
+                if visible_geo.contains(&tok) { continue; }
                 if txt.contains(&tok) {
                     if Some(id) == target && !body.contains(&tok) {
                         fails.push(format!("C18:dest_in_header:ttl{}:{tok}:{what}", ttls.iter().next().unwrap()));
@@ -315,14 +363,20 @@ fn apply_combo(app: &mut TuiApp, k: usize) -> (String, (u16, u16)) {
 
 fn hooks(variants_per_frame: usize, stats: std::sync::Arc<std::sync::Mutex<Stats>>) -> Hooks {
     Hooks {
-        setup: Box::new(|c| Setup {
-            max_flows: c.max_flows.clone(),
-            cols: c.cols.clone(),
-            privacy: c.privacy,
-            max_addrs: c.max_addrs,
-            geoip_file: Some("sentinel.mmdb".to_string()),
-            target_sentinel: true,
-            ..Setup::default()
+        setup: Box::new(|c| {
+            // every second case looks its GeoIP data up in a real (generated) MaxMind DB through the real reader and cache
+            let db = c.ops.len() % 2 == 0;
+            GEO_DB.store(db, Ordering::SeqCst);
+            Setup {
+                max_flows: c.max_flows.clone(),
+                cols: c.cols.clone(),
+                privacy: c.privacy,
+                max_addrs: c.max_addrs,
+                geoip_file: Some("sentinel.mmdb".to_string()),
+                geoip_db: if db { Some(sentinel_db()) } else { None },
+                target_sentinel: true,
+                ..Setup::default()
+            }
         }),
         seed: Box::new(seed_sentinel),
         per_frame: Box::new(move |sut, txt, i| {
@@ -505,6 +559,20 @@ fn structured_cases() -> Vec<Case> {
             k("toggle_map"), f(120, 40), k("toggle_chart"), f(120, 40), k("contract_privacy"), f(120, 40), k("contract_privacy"), f(120, 40),
         ],
     });
+    // a hidden hop and a visible hop at the same GeoIP location (addresses 12 and 15 are one site): the map has ONE entry for both;
+    // the info panel of the map, walked over every hop, with the privacy limit at 1, 2 and 3; once with seeded GeoIP data and once
+    // (one more frame: the parity of the op count selects it) with the generated database behind the real reader
+    for extra in [0usize, 1] {
+        for n in [1u8, 2, 3] {
+            let mut ops = vec![f(120, 40), round_of_path(0, 1, 1, &path(&[12, 13, 15, 14]), 0), round_of_path(0, 2, 1, &path(&[12, 13, 15, 14]), 0), f(120, 40), k("toggle_map"), f(120, 40), f(120, 40)];
+            for _ in 0..4 {
+                ops.push(k("next_hop"));
+                ops.push(f(120, 40));
+            }
+            if (ops.len() + extra) % 2 == 1 { ops.push(f(100, 30)); }
+            v.push(Case { max_flows: vec![1], cols: None, privacy: Some(n), max_addrs: None, ops });
+        }
+    }
     v
 }
 
